@@ -20,6 +20,9 @@ type Opts struct {
 	CompareOutput bool
 	SkipErased    bool // reference retract policy
 	BothPolicies  bool // accept the real run if it equals the reference under either retract policy
+	// PrefixOnBudget: when the reference runs out of inferences after >= 1 answers, compare those answers
+	// instead of discarding the case (only sound for programs without side effects)
+	PrefixOnBudget bool
 }
 
 // DefaultOpts are the budgets of DESIGN.md section 2.3.
@@ -31,6 +34,7 @@ type Outcome struct {
 	Err     error  // non-nil: the real interpreter disagrees with the reference
 	Ref     ref.Result
 	Real    sut.Result
+	Prefix  bool // only the reference's answers up to its budget were compared
 }
 
 // RunRef runs the program on a fresh reference machine.
@@ -86,10 +90,47 @@ func Run(p *gen.Program, o Opts) Outcome {
 	rr, _, _ := RunRef(p, o, o.SkipErased)
 	out.Ref = rr
 	if d := rr.Discard(); d != "" {
+		if d == "budget" && o.PrefixOnBudget && rr.PrefixComparable() {
+			return runPrefix(p, o, out)
+		}
 		out.Discard = d
 		return out
 	}
 	return RunLoaded(nil, p, o, out)
+}
+
+// runPrefix: the reference ran out of inferences after n >= 1 answers (the search is infinite or just long).
+// The real run is asked for n answers: they must be those n, in order. Nothing is said about what follows,
+// and a real run that exhausts its own (generous) step budget first is inconclusive, not wrong.
+func runPrefix(p *gen.Program, o Opts, out Outcome) Outcome {
+	rr := out.Ref
+	i, err := Load(p)
+	if err != nil {
+		out.Err = err
+		return out
+	}
+	q, names := p.QueryText()
+	n := len(rr.Answers)
+	out.Real = i.Query(q, names, n, rr.Stats.RealBudget())
+	out.Prefix = true
+	for k := 0; k < n && k < len(out.Real.Answers); k++ {
+		w, g := maskTuple(rr.Answers[k]), maskTuple(out.Real.Answers[k])
+		if !rt.VariantTuple(w, g) {
+			out.Err = fmt.Errorf("answer %d differs: real %s, reference %s (the reference search went on beyond its budget; the first %d answers are compared)", k+1, rt.Strings(g), rt.Strings(w), n)
+			return out
+		}
+	}
+	if len(out.Real.Answers) < n {
+		switch {
+		case out.Real.Err != nil && out.Real.Err.Kind == "budget":
+			out.Discard = "budget"
+		case out.Real.Err != nil:
+			out.Err = fmt.Errorf("real run ended with %s after %d answers; the reference has at least %d answers", out.Real.Err, len(out.Real.Answers), n)
+		default:
+			out.Err = fmt.Errorf("real run reported no more answers after %d; the reference has at least %d (next: %s)", len(out.Real.Answers), n, rt.Strings(rr.Answers[len(out.Real.Answers)]))
+		}
+	}
+	return out
 }
 
 // RunLoaded is Run on an interpreter that already holds the program (nil: load it now); only
